@@ -49,6 +49,40 @@ MUTS = {
  'M11_flags_kw_not_sticky': ('katdal/dataset.py',
    "        self._selection.update(kwargs)\n",
    "        self._selection.update(kwargs)\n        if 'flags' not in kwargs:\n            self._selection['flags'] = 'all'\n"),
+ # ---- selection plumbing / concatenated data sets (round 2)
+ 'N1_seeded_C16_3_truthy_guard': ('katdal/dataset.py',
+   "        if weights_keep is not None:\n            self._weights_keep = weights_keep\n        if flags_keep is not None:\n",
+   "        if weights_keep:\n            self._weights_keep = weights_keep\n        if flags_keep:\n"),
+ 'N2_concat_members_never_get_flags': ('katdal/concatdata.py',
+   "                        weights_keep=self._weights_keep,\n                        flags_keep=self._flags_keep)",
+   "                        weights_keep=self._weights_keep)"),
+ 'N3_concat_only_first_member_gets_flags': ('katdal/concatdata.py',
+   "                        flags_keep=self._flags_keep)",
+   "                        flags_keep=self._flags_keep if n == 0 else None)"),
+ 'N4_concat_caches_its_flags_indexer': ('katdal/concatdata.py',
+   "        return ConcatenatedLazyIndexer([d.flags for d in self.datasets])",
+   "        if not hasattr(self, '_cached_flags'):\n            self._cached_flags = ConcatenatedLazyIndexer([d.flags for d in self.datasets])\n        return self._cached_flags"),
+ 'N12_concat_members_get_the_parameter_EQUIVALENT': ('katdal/concatdata.py',
+   "                        flags_keep=self._flags_keep)", "                        flags_keep=flags_keep)"),
+ 'N5_select_ignores_empty_flag_selection': ('katdal/dataset.py',
+   "            elif k == 'flags':\n                self._flags_keep = v",
+   "            elif k == 'flags' and len(v):\n                self._flags_keep = v"),
+ 'N6_v3_getter_without_flipud': ('katdal/h5datav3.py',
+   "        selection = np.flipud(np.unpackbits(self._flags_select))\n        assert len(known_flags) == len(selection), \\\n            f'Expected {len(selection)} flag types in file, got {self._flags_description}'\n        return [name",
+   "        selection = np.unpackbits(self._flags_select)\n        assert len(known_flags) == len(selection), \\\n            f'Expected {len(selection)} flag types in file, got {self._flags_description}'\n        return [name"),
+ 'N7_concat_members_never_get_weights': ('katdal/concatdata.py',
+   "                        weights_keep=self._weights_keep,\n", ""),
+ 'N8_v4_set_keep_forgets_flags_keep': ('katdal/visdatav4.py',
+   "        super()._set_keep(time_keep, freq_keep, corrprod_keep, weights_keep, flags_keep)\n        if not self.source.data:",
+   "        super()._set_keep(time_keep, freq_keep, corrprod_keep, weights_keep)\n        if not self.source.data:"),
+ 'N9_concat_passes_falsy_as_none': ('katdal/concatdata.py',
+   "                        flags_keep=self._flags_keep)",
+   "                        flags_keep=self._flags_keep or None)"),
+ 'N10_empty_string_means_all': ('katdal/dataset.py',
+   "        if not names:\n            return []\n        elif names in groups:",
+   "        if names in groups or (not names and 'all' in groups):\n            return list(groups[names or 'all'])\n        elif not names:\n            return []\n        elif names in groups:"),
+ 'N11_v2_member_uses_v3_bit_order': ('katdal/h5datav2.py',
+   "        flagmask = np.packbits(selection)\n", "        flagmask = np.packbits(np.flipud(selection))\n"),
  'M12_seeded_variant_hidden_in_setter': ('katdal/visdatav4.py',
    "        self._flags_select = flagmask\n",
    "        self._flags_select = flagmask\n        if getattr(self, '_corrections', None) is not None:\n            if not hasattr(self, '_cal_flags'):\n                self._cal_flags = self._corrected.flags\n            self._corrected.flags = self._cal_flags if flagmask & 128 else self.source.data.flags\n"),
